@@ -6,6 +6,7 @@ import Chrono.Proofs.DeltaL
 import Chrono.Proofs.DeltaDivL
 import Chrono.Proofs.DeltaDisplayL
 import Chrono.Proofs.DeltaOpsL
+import Chrono.Proofs.DeltaCanonL
 
 namespace Chrono.Props.C06
 open Chrono Chrono.M Chrono.Spec Chrono.Proofs Chrono.Extracted
@@ -436,5 +437,41 @@ example :
     Delta.is_zero ⟨0, 0⟩ = true ∧ Delta.is_zero ⟨0, 1⟩ = false ∧ Delta.is_zero ⟨-1, 999999999⟩ = false ∧
     Delta.lt ⟨-1, 999999999⟩ ⟨0, 0⟩ = true ∧ Delta.le Delta.MIN Delta.MIN = true ∧
     Delta.eq Delta.MAX Delta.MAX = true ∧ Delta.gt Delta.MAX Delta.MIN = true := by decide
+
+/-! ### Canonical shape of the Display text (audit gap G4) -/
+
+/-- `display_value` fixes the value the text denotes; this fixes which of the texts with that value is
+written (`Spec/DeltaCanonSpec.lean`): `P0D` exactly for zero; otherwise `-` exactly for negative values,
+`PT`, the integer part without leading zeros, a fraction of one to nine digits not ending in `0` or no
+fraction at all, `S`, and never `PT0S` / `-P0D` -/
+theorem display_canonical (a : Delta) (ha : DInv a) :
+    ∃ t, Delta.display a = .ok t ∧
+      (ns a = 0 → t = [80, 48, 68]) ∧ (ns a ≠ 0 → canonText (decide (ns a < 0)) t) ∧
+      (t = [80, 48, 68] ↔ ns a = 0) ∧ (t.head? = some 45 ↔ ns a < 0) := by
+  obtain ⟨t, h1, h2, h3⟩ := DeltaCanon.display_canonical' a ha
+  refine ⟨t, h1, h2, h3, ?_, ?_⟩
+  · constructor
+    · intro ht
+      by_cases hz : ns a = 0
+      · exact hz
+      · exact absurd ht (DeltaCanon.canonText_head _ t (h3 hz)).1
+    · exact h2
+  · by_cases hz : ns a = 0
+    · rw [h2 hz]
+      constructor
+      · intro hh; cases hh
+      · intro hh; omega
+    · rw [(DeltaCanon.canonText_head _ t (h3 hz)).2, decide_eq_true_iff]
+
+/-- non-vacuity: "-PT9223372036854775.807S" and "PT0.000001S" have the canonical shape (integer
+part, fraction exhibited) -/
+example :
+    canonText true [45, 80, 84, 57, 50, 50, 51, 51, 55, 50, 48, 51, 54, 56, 53, 52, 55, 55, 53, 46, 56, 48,
+      55, 83] ∧
+    canonText false [80, 84, 48, 46, 48, 48, 48, 48, 48, 49, 83] :=
+  ⟨⟨[57, 50, 50, 51, 51, 55, 50, 48, 51, 54, 56, 53, 52, 55, 55, 53], [46, 56, 48, 55], by decide,
+      by decide, Or.inr ⟨[56, 48, 55], by decide⟩, by decide⟩,
+   ⟨[48], [46, 48, 48, 48, 48, 48, 49], by decide, by decide,
+      Or.inr ⟨[48, 48, 48, 48, 48, 49], by decide⟩, by decide⟩⟩
 
 end Chrono.Props.C06
